@@ -138,4 +138,35 @@ def writeTicks : List (AFIn α) → Nat
   | [] => 0
   | i :: is => (if i.tw then 1 else 0) + writeTicks is
 
+/-! ### Common reset (`ClockDomainCrossing(with_common_rst=True)`)
+
+  Both sides of the FIFO live in private clock domains whose reset is `ResetSignal(cd_from) | ResetSignal(cd_to)`
+  (through `AsyncResetSynchronizer`; the simulator's stand-in drives the domain reset combinationally).  A
+  register that is not `reset_less` takes its reset value at an edge of its clock while the reset is high
+  (the reset assignment overrides the normal one).  The `MultiReg` flops and `AsyncFIFOBuffered.dout` are
+  `reset_less`: they keep sampling.  The simulator's storage array is reset as well. -/
+
+/-- One instant with the common reset level `rst`. -/
+def afStepR (k : Nat) (buffered : Bool) (z : α) (s : AFState α) (i : AFIn α) (rst : Bool) : AFState α :=
+  let pN := if rst then 0 else pbinN k s i
+  let cN := if rst then 0 else cbinN k buffered s i
+  let bufLoad := buffered && i.tr && ire buffered s i.ready
+  { pbin := if i.tw then pN else s.pbin
+    pq   := if i.tw then gray pN else s.pq
+    cw1  := if i.tw then (if i.tr then mix i.mw s.cq (gray cN) else s.cq) else s.cw1
+    cw2  := if i.tw then s.cw1 else s.cw2
+    mem  := if i.tw then (if rst then List.replicate (2 ^ k) z
+                          else if wce k s i then s.mem.set (s.pbin % 2 ^ k) i.tok else s.mem) else s.mem
+    cbin := if i.tr then cN else s.cbin
+    cq   := if i.tr then gray cN else s.cq
+    pr1  := if i.tr then (if i.tw then mix i.mr s.pq (gray pN) else s.pq) else s.pr1
+    pr2  := if i.tr then s.pr1 else s.pr2
+    radr := if i.tr then cN % 2 ^ k else s.radr
+    bval := if i.tr && rst then false else if bufLoad then ireadable s else s.bval
+    bdat := if bufLoad then memOut z s else s.bdat }
+
+def runFromR (k : Nat) (buffered : Bool) (z : α) (s : AFState α) : List (AFIn α × Bool) → AFState α
+  | [] => s
+  | x :: xs => runFromR k buffered z (afStepR k buffered z s x.1 x.2) xs
+
 end Litex.Cdc
